@@ -64,6 +64,49 @@ SPECS["C12"] = {
     "assumptions": ["(c): the limit admits the RESPONSE_TOO_LARGE reply itself (>= 160 bytes)"],
 }
 
+SCHED_NOTE = "Schedules: delay-bounded (all schedules with at most d deviations from the non-preemptive round-robin scheduler; a context switch is possible before every channel/select/mutex/atomic/WaitGroup operation; a timer firing counts as a deviation unless nothing else can run). Counterexamples of threaded harnesses are confirmed by pinned concrete re-execution of the real SSA under the recorded schedule (no native schedule controller)."
+
+SPECS["C01"] = {
+    "level": "model_checking",
+    "groups": [dict(LIBGO, entries=[
+        {"name": "VerifC01_RegistryStep", "quick": {"params": [0, 1, 2], "bound": 3}, "thorough": {"params": [0, 1, 2], "bound": 4},
+         "expect_reach": ["end", "duplicate", "registered", "unregistered", "delivered", "slot-full", "unknown", "not-a-number"]},
+        {"name": "VerifC01_AdapterCorrelation", "native": False, "quick": {"params": [0, 1, 2], "flags": ["-preempt", "1"]},
+         "thorough": {"params": [0, 1, 2, 3], "flags": ["-preempt", "2", "-par", "4"], "procs": 4}, "flags": [],
+         "expect_reach": ["end", "with-deadline", "timed-out"]},
+    ])],
+    "level_text": "(a) One-step contracts of the real registry from an ARBITRARY pre-state (the channels map is an unknown map of any size; a registered channel is empty or full): Register / Unregister / Execute with an arbitrary op-id string (real strconv.ParseUint on symbolic bytes) store, remove or deliver to exactly the caller's own channel, refuse an in-flight duplicate, discard unknown ids, never overwrite a delivered frame, and leave every other registration untouched (probe key) - this covers any number of concurrent callers and any history because each step is atomic under the registry mutex. (b) Bounded symbolic execution with threads of the real fAdapterTransport (Open/readLoop/TFramedTransport/Request/registry) over a harness pipe: 2 concurrent callers (one optionally with a deadline), an adversarial peer sending k frames in any order / multiplicity / with unknown ids: a caller succeeds only with its own frame, caller 2 always gets its own, failures are only own timeouts, no registration is left. Outside: NATS transport Request (covered for routing by C05/C06 handler harnesses only), HTTP, >2 callers in (b).",
+    "level_note": "Trusted: go/ssa, gose interpreter and scheduler model, z3. " + SCHED_NOTE,
+    "bounds": {"quick": "(a) op-id strings 0..3 arbitrary bytes; (b) k <= 2 adversarial frames, delay bound 1", "thorough": "(a) 0..4 bytes; (b) k <= 3, delay bound 2"},
+    "assumptions": ["(a) the unknown registry is injective and its channels have capacity 1 (every Register call site passes make(chan []byte, 1))"],
+}
+
+SPECS["C06"] = {
+    "level": "model_checking",
+    "groups": [dict(LIBGO, entries=[
+        {"name": "VerifC06_DispatchNeverBlocks", "quick": {"params": [0], "bound": 3}, "thorough": {"params": [0], "bound": 4}, "expect_reach": ["end", "slot-full", "slot-empty", "unknown"]},
+        {"name": "VerifC06_AdapterNoHOL", "native": False, "quick": {"params": [1, 2, 3, 4], "flags": ["-preempt", "1"], "procs": 2},
+         "thorough": {"params": [3, 4, 5], "flags": ["-preempt", "2", "-par", "5"], "procs": 3}, "expect_reach": ["end", "triple-duplicate"]},
+    ])],
+    "level_text": "(a) One-step contract from an arbitrary registry state (unknown map, registered channel empty or full): Execute of any well-formed frame returns without blocking - for every state and frame, so no number of duplicates, unknown or late responses can stall the reader. (b) Bounded symbolic execution with threads of the real adapter transport: one caller without deadline, an adversarial prefix of k frames (own id xN, unknown ids), then a FRESH request whose response must still be delivered (a wedged reader shows up as a deadlock). Outside: NATS (its handler calls the same Execute/dispatch), more than k frames in (b).",
+    "level_note": "Trusted: go/ssa, gose interpreter and scheduler model, z3. " + SCHED_NOTE,
+    "bounds": {"quick": "(b) k <= 4 frames, delay bound 1", "thorough": "(b) k <= 5 frames, delay bound 2"},
+    "assumptions": [],
+}
+
+SPECS["C17"] = {
+    "level": "model_checking",
+    "groups": [dict(LIBGO, entries=[
+        {"name": "VerifC17_OpIDsUnique", "native": False, "quick": {"params": [0], "flags": ["-preempt", "2"]}, "thorough": {"params": [0, 1], "flags": ["-preempt", "2", "-par", "8"]}},
+        {"name": "VerifC17_SharedContext", "native": False, "quick": {"params": [0], "flags": ["-preempt", "2"]}, "thorough": {"params": [0], "flags": ["-preempt", "3"]}, "expect_reach": ["end", "two-writers"]},
+        {"name": "VerifC17_CloneIndependent", "quick": {"params": [0, 1], "bound": 1}, "thorough": {"params": [0, 1], "bound": 2}},
+    ])],
+    "level_text": "(a) From an ARBITRARY value of the op-id counter (symbolic uint64), 2 (3) goroutines that create / Clone() / frugal.Clone() contexts concurrently plus one sequential context: all op ids pairwise different and different from every id issued before (decided on the uint64 level; strconv format/parse of the symbolic id is an injective tag), and the counter is only touched through sync/atomic (watched cell). (b) Two goroutines applying any pair of FContext operations to one shared context: every access to the three maps holds the context mutex in the right mode (lock-discipline monitor), last-writer-wins. (c) Clone (method and package function): starts equal except for a fresh op id, and a mutation of either side (request/response header, timeout, ephemeral property) is invisible to the other. Outside: >3 goroutines; plain data races on fields other than the watched counter and guarded maps are not monitored.",
+    "level_note": "Trusted: go/ssa, gose interpreter and scheduler model, z3. " + SCHED_NOTE,
+    "bounds": {"quick": "(a) 2 workers, delay bound 2; (b) delay bound 2; (c) names/values 0..1 bytes", "thorough": "(a) 3 workers; (b) delay bound 3; (c) 0..2 bytes"},
+    "assumptions": [],
+}
+
 OVERLAYS = {}
 
 HOOK_COMMITS = []
